@@ -396,6 +396,13 @@ fn check_format() -> Option<Mismatch> {
         v1::Addresses::new_tcp4(Ipv4Addr::new(10, 0, 0, 1), Ipv4Addr::new(10, 0, 0, 2), 0, 443),
         v1::Addresses::new_tcp6(Ipv6Addr::new(1, 2, 3, 4, 5, 6, 7, 8), Ipv6Addr::new(9, 10, 11, 12, 13, 14, 15, 16), 17, 18),
         v1::Addresses::new_tcp6(Ipv6Addr::new(0, 0, 0, 0, 0, 0, 0, 1), Ipv6Addr::new(0xffff, 0xffff, 0xffff, 0xffff, 0xffff, 0xffff, 0xffff, 0xffff), 65535, 0)];
+    let mut vals: Vec<v1::Addresses> = vals.to_vec();
+    // every port value in each role (std's decimal printer / the leading-zero and sign rules), both families
+    for p in 0..=65535u16 {
+        vals.push(v1::Addresses::new_tcp4(Ipv4Addr::new(127, 0, 0, 1), Ipv4Addr::new(192, 168, 1, 1), p, 443));
+        vals.push(v1::Addresses::new_tcp4(Ipv4Addr::new(127, 0, 0, 1), Ipv4Addr::new(192, 168, 1, 1), 80, p));
+        if p % 257 == 0 || p < 12 { vals.push(v1::Addresses::new_tcp6(Ipv6Addr::new(p, 0, 0, 0, 0, 0, 0, 1), Ipv6Addr::new(0, 0, p, p, 0, 0, 0, 2), p, 65535 - p)); }
+    }
     for a in vals {
         let s = a.to_string();
         let want = match a {
@@ -433,7 +440,7 @@ fn run(prop: &str, one: Option<&str>) -> (Option<Mismatch>, usize) {
         let m = match prop { "C02" | "C14" | "C17" => check_v2(&c), "C11" => check_tlv(&c), "C06" => check_auto(&c).or_else(|| check_v2(&c)).or_else(|| check_v1(&c)), _ => check_v1(&c).or_else(|| check_v2(&c)).or_else(|| check_auto(&c)) };
         return (m, 1);
     }
-    let v1p = ["C01", "C03", "C04", "C05", "C12", "C15", "C16", "C18", "C06"];
+    let v1p = ["C01", "C03", "C04", "C05", "C08", "C12", "C15", "C16", "C18", "C06"];
     let v2p = ["C02", "C03", "C04", "C05", "C12", "C13", "C14", "C17", "C06"];
     if v1p.contains(&prop) { sweep!(v1_cases(), |c: &Vec<u8>| check_v1(c)); }
     if v2p.contains(&prop) { sweep!(v2_cases(), |c: &Vec<u8>| check_v2(c)); }
